@@ -1,11 +1,26 @@
 (* RunHyps.v — does a (raw query, arguments) world meet the hypotheses of the whole-query refinement
-   theorem?  Evaluated on every world the harness generates, so that the evidence says how many worlds
-   are decided by theorem + correspondence and how many by the specification oracle alone. *)
-From TF Require Import Exec Lower Run SimGen WfCheck.
+   theorem (SimFinal.interpret_refines_sem)?  Evaluated on every world the harness generates, so that the
+   evidence says how many worlds are decided by theorem + correspondence and how many by the
+   specification oracle alone.  "HYP:yes+min" marks worlds that contain a fold truncated by take(min). *)
+From TF Require Import Exec Lower Run SimGen WfCheck SemT EraseSem SimFinal.
 Local Open Scope string_scope.
+
+Fixpoint has_truncation (args : list (string * fv)) (c : ir_component) {struct c} : bool :=
+  match c with
+  | mkComp _ vs ss _ =>
+      (fix go (todo : list step) : bool :=
+         match todo with
+         | [] => false
+         | SEdge _ :: r => go r
+         | SFold h sub :: r =>
+             (match trunc_of args vs ss h sub with Some _ => true | None => false end) || has_truncation args sub || go r
+         end) ss
+  end.
 
 Definition run_hyps (rq : raw_query) (args : list (string * fv)) : string :=
   match lower_query rq with
   | Panic _ => "HYP:lowering-panics"
-  | Ok q => if spec_hyps args q then "HYP:yes" else "HYP:no"
+  | Ok q => if refine_hyps args q
+            then (if has_truncation args (q_comp q) then "HYP:yes+min" else "HYP:yes")
+            else "HYP:no"
   end.
